@@ -199,6 +199,27 @@ def opWithinBasis (args : List String) : String :=
     | _, _, _, _, _, _, _ => "bad-op"
   | _ => "bad-op"
 
+/-- `adaptcell <cell> <idx> <pNode> <fNode> <add: - | n:px,py,pz:g1,g2,g3> <sub: same> <span>` : one adaptive cell vector of
+_find_proto_cell_3d -/
+def opAdaptCell (args : List String) : String :=
+  open Matid.Adaptive in
+  let pf (s : String) : Option F3 := match (s.splitOn ",").mapM String.toInt? with
+    | some [a, b, c] => some (a, b, c)
+    | _ => none
+  let pn (s : String) : Option (Option (Nat × V3 × F3)) :=
+    if s == "-" then some none else
+    match s.splitOn ":" with
+    | [n, p, g] => match n.toNat?, parseV3s? p, pf g with
+      | some n, some [p], some g => some (some (n, p, g))
+      | _, _, _ => none
+    | _ => none
+  match args with
+  | [cs, idx, pN, fN, addS, subS, spanS] =>
+    match parseCell? cs, idx.toNat?, parseV3s? pN, pf fN, pn addS, pn subS, parseV3s? spanS with
+    | some c, some idx, some [pN], some fN, some add, some sub, some [span] => showV (adaptiveVector c idx pN fN add sub span)
+    | _, _, _, _, _, _, _ => "bad-op"
+  | _ => "bad-op"
+
 /-- `extend <cell> <pbc> <cutoff> <positions>` -/
 def opExtend (args : List String) : String :=
   match args with
@@ -396,6 +417,19 @@ def opProtoDecide (args : List String) : String :=
     | _, _, _, _, _, _, _, _, _, _, _, _ => "bad-op"
   | _ => "bad-op"
 
+/-- `sbcentry <anyScaled 0/1> <min> <max> <f,f,…>` : scale factor of the cell vector and new fractional coordinates along one
+non-periodic axis after the entry fix-up of get_clusters (condition of the source required to have the translated standard shape) -/
+def opSbcEntry (args : List String) : String :=
+  open Matid.SbcEntry in
+  if !MatidGen.SbcRule.scaleCond then "unmodelled-condition" else
+  match args with
+  | [a, lo, hi, fs] =>
+    match parseRat? lo, parseRat? hi, parseList? parseRat? fs with
+    | some lo, some hi, some fl =>
+      showRat (scaleOf outside lo hi) ++ " " ++ ",".intercalate (fl.map fun f => showRat (newFrac outside (a == "1") lo hi f))
+    | _, _, _ => "bad-op"
+  | _ => "bad-op"
+
 section sbc
 open Matid.SBC
 
@@ -546,6 +580,7 @@ def step (line : String) : String :=
   | "sets" :: args => opSets args
   | "idstring" :: args => opIdString args
   | "extend" :: args => opExtend args
+  | "adaptcell" :: args => opAdaptCell args
   | "withinbasis" :: args => opWithinBasis args
   | "query" :: args => opQuery args
   | "disp" :: args => opDisp args
@@ -557,6 +592,7 @@ def step (line : String) : String :=
   | "inertia" :: args => opInertia args
   | "cluster" :: args => opCluster args
   | "ahist" :: args => opAHist args
+  | "sbcentry" :: args => opSbcEntry args
   | "protodecide" :: args => opProtoDecide args
   | "sbcmerge" :: args => opSbcMerge args
   | "sbclocalize" :: args => opSbcLocalize args
